@@ -91,7 +91,7 @@ def run(chk):
                ["sdefi ext%d %d" % (j, exts[j]) for j in range(3)] + ["scan " + hx(buf)]
         cases.append(("c%d" % i, cmds))
         meta["c%d" % i] = (src, trees, strs, exts, buf)
-    out, err = vlib.run_cases(hscan, cases, timeout=3000, args=["60"])
+    out, err = vlib.run_cases(hscan, cases, timeout=3000, args=["60"], jobs=16)
     mq, ids = [], []
     for cid, _ in cases:
         src, trees, strs, exts, buf = meta[cid]
